@@ -920,6 +920,34 @@ class BasisManaged(Managed):
             Manager().register_with_basis(bb, new)
         return new
 
+    def __getstate__(self):
+        """State for pickling: the representation in the outermost basis
+        
+        The basis label of an object is only meaningful while the context
+        which created it is open. An object which is saved (or deep-copied) 
+        inside a basis context is therefore stored as it would look after
+        all contexts were left.
+        
+        """
+        state = self.__dict__.copy()
+        bb = state.get("_current_basis", 0)
+        mgr = Manager()
+        if (bb != 0) and (bb in mgr.basis_stack) \
+           and (not state.get("is_basis_protected", False)):
+            twin = object.__new__(self.__class__)
+            state["_current_basis"] = 0
+            # the twin gets its own arrays; other attributes are shared
+            for key, val in state.items():
+                if isinstance(val, numpy.ndarray):
+                    state[key] = val.copy()
+            twin.__dict__.update(state)
+            # undo the transformations of the open contexts, innermost first
+            for lev in range(mgr.basis_stack.index(bb), 0, -1):
+                SS = mgr.basis_transformations[lev]
+                twin.transform(numpy.linalg.inv(SS), inv=SS)
+            state = twin.__dict__
+        return state
+
     def protect_basis(self):
         self.is_basis_protected = True
         
